@@ -252,6 +252,13 @@ class Executor:
         if v.kind == "func":
             return z3.BoolVal(True)
         t = v.t
+        if z3.is_app(t):
+            if t.eq(T.True_):
+                return z3.BoolVal(True)
+            if t.eq(T.False_) or t.eq(T.None_):
+                return z3.BoolVal(False)
+            if t.decl().kind() == z3.Z3_OP_ITE:
+                return z3.If(t.arg(0), self.truthy(st, sv_val(t.arg(1))), self.truthy(st, sv_val(t.arg(2))))
         h = Heap(self, st)
         c = cls(t)
         return z3.If(
@@ -1069,6 +1076,28 @@ class Executor:
             outs.append((s, "val", sv_val(h.attr(ot, node.attr))))
         return outs
 
+    def eval_pure(self, node, st: State, guard):
+        """evaluate `node` under the extra assumption `guard`; if it has exactly one outcome,
+        raises nothing and leaves the heap untouched, return its value (facts learnt are kept
+        as implications from the guard), else None"""
+        sub = st.fork().assume(guard)
+        n0 = len(sub.pc)
+        heap0 = dict(sub.heap)
+        try:
+            outs = self.eval(node, sub)
+        except (Unsupported, SidecarError):
+            return None
+        outs = [o for o in outs if self.feasible(o[0])]
+        if len(outs) != 1 or outs[0][1] != "val":
+            return None
+        so, _, v = outs[0]
+        for hn, arr in so.heap.items():
+            if hn not in heap0 or not arr.eq(heap0[hn]):
+                return None
+        for f in so.pc[n0:]:
+            st.assume(z3.Implies(guard, f))
+        return v
+
     def expr_BoolOp(self, node, st):
         is_and = isinstance(node.op, ast.And)
 
@@ -1083,8 +1112,19 @@ class Executor:
                     res.append((s1, "val", v))
                     continue
                 c = z3.simplify(self.truthy(s1, v))
-                go = s1.fork().assume(c if is_and else z3.Not(c))
-                stop = s1.fork().assume(z3.Not(c) if is_and else c)
+                go_cond = c if is_and else z3.Not(c)
+                # side-effect free tail: one value, no fork (a and b  ==  b if a else a)
+                tail = ast.BoolOp(op=node.op, values=list(rest)) if len(rest) > 1 else rest[0]
+                ast.copy_location(tail, node)
+                pv = self.eval_pure(tail, s1, go_cond)
+                if pv is not None:
+                    if v.kind == "bool" and pv.kind == "bool":
+                        res.append((s1, "val", sv_bool(z3.And(v.t, pv.t) if is_and else z3.Or(v.t, pv.t))))
+                    else:
+                        res.append((s1, "val", sv_val(z3.If(go_cond, self.val_of(pv), self.val_of(v)))))
+                    continue
+                go = s1.fork().assume(go_cond)
+                stop = s1.fork().assume(z3.Not(go_cond))
                 if self.feasible(stop):
                     res.append((stop, "val", v))
                 if self.feasible(go):
@@ -1113,6 +1153,14 @@ class Executor:
                 outs.append((s, k, v))
                 continue
             c = z3.simplify(self.truthy(s, v))
+            pt = self.eval_pure(node.body, s, c)
+            pf = self.eval_pure(node.orelse, s, z3.Not(c)) if pt is not None else None
+            if pt is not None and pf is not None:
+                if pt.kind == "bool" and pf.kind == "bool":
+                    outs.append((s, "val", sv_bool(z3.If(c, pt.t, pf.t))))
+                else:
+                    outs.append((s, "val", sv_val(z3.If(c, self.val_of(pt), self.val_of(pf)))))
+                continue
             st_t, st_f = s.fork().assume(c), s.fork().assume(z3.Not(c))
             if self.feasible(st_t):
                 outs.extend(self.eval(node.body, st_t))
@@ -1142,8 +1190,11 @@ class Executor:
                 if a.kind == "int" or b.kind == "int":
                     r = as_int(a) == as_int(b)
                 else:
-                    # == on values: identity of canonical values (assumption A-EQ)
-                    r = self.val_of(a) == self.val_of(b)
+                    # == on values: identity on None / str / int, reflexive, else uninterpreted
+                    if a.kind == "class" or b.kind == "class" or a.kind == "bool" or b.kind == "bool":
+                        r = self.val_of(a) == self.val_of(b)
+                    else:
+                        r = T.py_eq(self.val_of(a), self.val_of(b))
                 outs.append((s, "val", sv_bool(z3.Not(r) if isinstance(op, ast.NotEq) else r)))
             elif isinstance(op, (ast.Lt, ast.LtE, ast.Gt, ast.GtE)):
                 if not (a.kind == "int" and b.kind == "int") and not getattr(self.contract, "int_compare", False):
@@ -1591,6 +1642,10 @@ class SpecCtx:
 
     def truthy(self, v):
         return self.ex.truthy(self.st, sv_val(v))
+
+    def truthy0(self, v):
+        """truthiness in the entry heap"""
+        return self.ex.truthy(State({}, {}, []), sv_val(v))
 
 
 class LoopCtx(SpecCtx):
